@@ -71,6 +71,20 @@ class C16(Prop):
     def nontrivial(self, line):
         return len(line) > 20
 
+    D21 = ('an integer printed in a non-decimal base is rendered as its two\'s-complement bit pattern, so a negative one does not read back '
+           '(witness: -1 ^hex print -> 0xffffffffffffffffffffffffffffffff); 0x-5 lexes as -5')
+
+    def known(self, line, impl, spec):
+        if 'printread' in line and 'G(I-' in line and 'S23666d74' in line:
+            return self.D21
+        return None
+
+    def known_case(self, case):
+        return self.known(case, '', '')
+
+    def spec_of(self, case):
+        return 'ok | ok | printread:ok' if case.endswith('| printread') else None
+
     def classify(self, line):
         return ' '.join(line.split(' ')[:2])
 
@@ -151,6 +165,25 @@ class C16(Prop):
             if len(b) == 0:
                 continue
             cs.append('lex loc %s %d %d' % (b.hex(), a, e))
+        # print / read round trip of integers, bit-strings and vectors / maps of those
+        from . import cells
+        I_MIN, I_MAX = -(1 << 127), (1 << 127) - 1
+        vals = [('I', v) for v in (0, 1, -1, 9, 10, -10, 255, I_MIN, I_MIN + 1, I_MAX, I_MAX - 1, 2 ** 63, -(2 ** 63), 2 ** 64, 10 ** 38, -(10 ** 38))]
+        for _ in range(60 if not thorough else 3000):
+            vals.append(('I', rng.getrandbits(rng.choice([7, 31, 64, 100, 127])) * rng.choice([1, -1])))
+        for ln in range(0, 41):
+            vals.append(('B', ''.join(rng.choice('01') for _ in range(ln))))
+        for _ in range(40 if not thorough else 1500):
+            vals.append(('B', ''.join(rng.choice('01') for _ in range(rng.randint(0, 200)))))
+        for _ in range(120 if not thorough else 4000):
+            vals.append(cells.rand_cell(rng, types=['int', 'int', 'bits', 'vec', 'map'] , depth=0))
+        vals.append(('V', [('I', 1), ('I', I_MIN), ('I', -1)]))
+        for v in vals:
+            if cells.has_tag(v):
+                continue
+            cs.append('xs limits 4000 - - | push %s | printread' % cells.fmt(v))
+        # recorded finding D21: a negative integer printed in hexadecimal does not read back
+        cs.append('xs limits 4000 - - | push G(I-1,M(S23666d74=I110)) | printread')
         return cs
 
 
